@@ -120,7 +120,7 @@ def jobs(tier):
     extra = 14 if tier == "thorough" else 9
     cfgs = [(2, 2, "hole", 1), (2, 2, "hole", 3), (1, 2, "gapped", 2), (2, 3, "hole", 5)]
     if tier == "thorough":
-        cfgs += [(2, 2, "adjacent", 2), (1, 3, "hole", 5), (2, 2, "gapped", 1), (2, 3, "adjacent", 3)]
+        cfgs += [(2, 2, "adjacent", 2), (1, 3, "hole", 5), (2, 2, "gapped", 1), (2, 3, "gapped", 3)]
     for (M, S, mp, cyc) in cfgs:
         js.append(Job("wb_timeout%d_%dx%d_%s" % (cyc, M, S, mp), build_wb, dict(M=M, S=S, mapname=mp, cycles=cyc, K=cyc + extra), cost=M * S * cyc))
     js.append(Job("socctrl_bus_errors", build_ctrl, {}))
